@@ -185,7 +185,24 @@ pub fn run(args: &[String]) {
                 }
             }
             let fault;
-            match rng.gen_range(0..7) {
+            match rng.gen_range(0..9) {
+                7 => {
+                    // the text ends inside or right behind a comment / doc line, with and without its line break
+                    let tails = ["\n//!\r", "\n/// d\r", "\n//! d\r\n", "\r", "\n//", "\n/*", "\n//!", "\n///", "\n/// \u{e9}\r", "\n// c\r"];
+                    c.extend(tails[rng.gen_range(0..tails.len())].chars());
+                    fault = "tail";
+                }
+                8 => {
+                    // PEEK slices whose bounds sit at the edges of i32 with either sign, where the validator looks at them
+                    let edge = ["0", "1", "2", "2147483646", "2147483647", "2147483648", "4294967295", "4294967296"];
+                    let (a, b) = (edge[rng.gen_range(0..edge.len())], edge[rng.gen_range(0..edge.len())]);
+                    let (sa, sb) = (["", "-"][rng.gen_range(0..2)], ["", "-"][rng.gen_range(0..2)]);
+                    let forms = [format!("n = {{ PEEK[{sa}{a}..{sb}{b}] ~ \"x\" }}"), format!("n = {{ (PEEK[{sa}{a}..{sb}{b}])* }}"),
+                                 format!("n = {{ \"x\" ~ PEEK[{sa}{a}..{sb}{b}]+ }}"), format!("WHITESPACE = {{ PEEK[{sa}{a}..{sb}{b}] ~ \" \" }}\nn = {{ \"a\" ~ \"b\" }}"),
+                                 format!("n = {{ PUSH(\"a\") ~ (PEEK[{sa}{a}..] ~ \"x\")* }}")];
+                    c = forms[rng.gen_range(0..forms.len())].chars().collect();
+                    fault = "peek-edge";
+                }
                 0 if !c.is_empty() => {
                     let p = rng.gen_range(0..c.len());
                     c.truncate(p);
